@@ -10,6 +10,7 @@ Arguments N.ltb : simpl never.
 Arguments N.eqb : simpl never.
 Arguments dedup_sort : simpl never.
 Arguments len : simpl never.
+Arguments cur_add : simpl never.
 
 Lemma set_agg_same s a : agg s = Some a -> set_agg (Some a) s = s.
 Proof. destruct s; simpl; intros; subst; reflexivity. Qed.
@@ -33,25 +34,26 @@ Proof.
 Qed.
 
 (* ---- the final loop ---- *)
-Lemma finish_lock_Inv rk rv ce loie absent lwc s news :
+Lemma finish_lock_Inv rk rv ce loie absent lwc hv s news :
   (forall p, In p (store s) -> covered s p \/ In p news) ->
   lwc_ok s -> cnt_ok s ->
   (forall k, In k rk -> in_cur s k = false) ->
   (agg s = None -> lwc = 0) ->
   (forall a, agg s = Some a -> lwc <= amaxc a) ->
   (forall p, In p news -> book_ok s /\ In (fst p) (kept loie absent rk) /\ exists f', snd p = Pess f' /\ f' <= N.max (fu s) lwc) ->
-  Inv (finish_lock rk rv ce loie absent lwc s).
+  Inv (finish_lock rk rv ce loie absent lwc hv s).
 Proof.
   intros HI HL HC Hnc Hl0 Hla Hnew. unfold finish_lock. set (kp := kept loie absent rk) in *.
   assert (Hkp : forall k, In k kp -> in_cur s k = false).
   { intros k Hk. apply Hnc. apply kept_In in Hk. tauto. }
   destruct (agg s) as [a|] eqn:Ea.
-  - fold (cur_add (mkE rv ce lwc) kp (cur a)). fold (prev_del kp (prev a)).
+  - set (E := fun k => mkE rv ce lwc (ex_of hv rv ce lwc absent k)).
+    change (fold_left _ kp (cur a)) with (cur_add E kp (cur a)). fold (prev_del kp (prev a)).
     assert (Hold : forall k f', agg_cov s k f' ->
-             agg_cov (set_agg (Some (a_prev (prev_del kp (prev a)) (a_cur (cur_add (mkE rv ce lwc) kp (cur a)) a))) s) k f').
+             agg_cov (set_agg (Some (a_prev (prev_del kp (prev a)) (a_cur (cur_add E kp (cur a)) a))) s) k f').
     { intros k f' (a0 & e & Ha0 & Hf & Hle). rewrite Ea in Ha0. inversion Ha0; subst a0.
       destruct (memk k kp) eqn:Em.
-      - eexists. exists (mkE rv ce lwc). split; [reflexivity|]. simpl. split; auto.
+      - eexists. exists (E k). split; [reflexivity|]. simpl. split; auto.
         left. rewrite cur_add_find, Em. auto.
       - eexists. exists e. split; [reflexivity|]. simpl. split; auto.
         rewrite cur_add_find, prev_del_find, Em. auto. }
@@ -61,7 +63,7 @@ Proof.
         destruct Hc as [Hc|Hc]; [left; auto|]. right. apply Hold. exact Hc.
       * right. destruct Ht as (t & T1 & T2). exists t; auto.
       * destruct (Hnew p Hn) as (B & Hk & f' & Hs & Hle). left. split; [exact B|]. simpl. rewrite Hs.
-        right. eexists. exists (mkE rv ce lwc). split; [simpl; reflexivity|]. simpl. split.
+        right. eexists. exists (E (fst p)). split; [simpl; reflexivity|]. simpl. split.
         -- left. rewrite cur_add_find. apply memk_In in Hk. rewrite Hk. auto.
         -- pose proof (Hla a eq_refl). lia.
     + intros a' k e Ha' Hin. simpl in Ha'. inversion Ha'; subst a'. simpl in *.
@@ -71,7 +73,7 @@ Proof.
         -- apply (HL a k e Ea). apply in_or_app; auto.
       * apply prev_del_In in Hin. apply (HL a k e Ea). apply in_or_app; auto.
     + unfold cnt_ok, agg_len in *. simpl. rewrite Ea in HC.
-      pose proof (cur_add_length (mkE rv ce lwc) kp (cur a)). pose proof (prev_del_length kp (prev a)). unfold len in *. lia.
+      pose proof (cur_add_length E kp (cur a)). pose proof (prev_del_length kp (prev a)). unfold len in *. lia.
   - split; [|split].
     + intros p Hp. simpl in Hp. destruct (HI p Hp) as [[[B Hc]|Ht]|Hn].
       * left. split; [exact B|]. simpl. destruct (snd p) as [f'|]; auto.
@@ -133,7 +135,7 @@ Proof.
     { unfold s3. destruct (assigned && loie); simpl; [|repeat split; auto].
       destruct (primary s); simpl; [|repeat split; auto]. destruct (memk _ _); simpl; repeat split; auto. }
     destruct E3 as (Est & Efl & Eag & Ecn & Etk & Eva & Epe & Eco & Efu & Ecm).
-    apply (finish_lock_Inv rk rv ce loie (lo_absent o) 0 s3
+    apply (finish_lock_Inv rk rv ce loie (lo_absent o) 0 true s3
              (filter (fun p => match snd p with Pess f' => (f' =? f) && memk (fst p) (kept loie (lo_absent o) rk) | Prew => false end) st1)).
     + intros p Hp. rewrite Est in Hp. unfold st1 in Hp. pose proof Hp as Hp0. apply fold_put_pess_In in Hp. destruct Hp as [[H1 H2]|Hp].
       * right. apply filter_In. split; [exact Hp0|]. rewrite H2. rewrite N.eqb_refl. simpl.
